@@ -699,5 +699,6 @@ def _execute_task_with_cache(
     else:
         _, result = get_output(file_name=file_name)
         future = task_dict["future"]
-        future.set_result(result)
+        if future.set_running_or_notify_cancel():
+            future.set_result(result)
         future_queue.task_done()
